@@ -5,6 +5,7 @@ import json, os, subprocess, sys, time
 V = os.path.dirname(os.path.dirname(os.path.abspath(__file__)))
 m = json.load(open(os.path.join(V, "MANIFEST.json")))
 only = sys.argv[1:]
+subprocess.run([sys.executable, os.path.join(V, "vlib", "thmmodules.py")])
 bad = []
 for c in m["checks"]:
     pid = c["property_id"]
